@@ -362,3 +362,58 @@ def adv_string(rng, maxlen=6, alphabet=None):
     alphabet = alphabet or ADV
     n = rng.choice([0, 1, 1, 2, 2, 3, 3, 4, 5, maxlen])
     return "".join(rng.choice(alphabet) for _ in range(n))
+
+
+# ------------------------------------------------------------------ parsing driver output
+def parse_unit_tokens(toks, k):
+    """tokens from index k: (S name (E key val)*)* '.'  -> (sections, next index)"""
+    secs = []
+    while toks[k] != ".":
+        if toks[k] == "S":
+            secs.append((unhx(toks[k + 1]).decode("utf-8", "replace"), []))
+            k += 2
+        elif toks[k] == "E":
+            secs[-1][1].append((unhx(toks[k + 1]).decode("utf-8", "replace"), unhx(toks[k + 2]).decode("utf-8", "replace")))
+            k += 3
+        else:
+            raise ValueError("bad unit token %r" % toks[k])
+    return secs, k + 1
+
+
+def parse_convert(out):
+    """output line of op convert -> list of per-file records"""
+    toks = out.split("\t")
+    if toks[0] != "OK":
+        return [{"panic": True, "raw": out}]
+    recs, k = [], 1
+    while k < len(toks):
+        tag = toks[k]
+        path = unhx(toks[k + 1])
+        if toks[k + 2] == "ERR":
+            recs.append({"stage": "load" if tag == "L" else "convert", "path": path, "ok": False, "err": toks[k + 3],
+                         "msg": unhx(toks[k + 4]).decode("utf-8", "replace")})
+            k += 5
+        else:
+            svc = unhx(toks[k + 3])
+            secs, k2 = parse_unit_tokens(toks, k + 4)
+            recs.append({"stage": "convert", "path": path, "ok": True, "svc": svc, "sections": secs})
+            k = k2
+    return recs
+
+
+def entries(rec, section, key=None):
+    out = []
+    for name, es in rec.get("sections", []):
+        if name == section:
+            out.extend(v for k, v in es if key is None or k == key)
+    return out
+
+
+def sd_split_many(lines_bytes, mode="exec"):
+    """Spec.sd_split through the extracted model; returns list of (list of str) or None"""
+    res = run_model([case_line("sd_split", mode, b) for b in lines_bytes])
+    out = []
+    for r in res:
+        t = r.split("\t")
+        out.append([unhx(x).decode("utf-8", "replace") for x in t[1:]] if t[0] == "OK" else None)
+    return out
